@@ -36,6 +36,19 @@ const TD_ALPHA: [char; 14] = ['1', '9', '0', '-', '+', 'd', 'm', 'o', 's', 'y', 
 fn td_total(s: &str, fam: &str, ctx: &mut Ctx) {
     let r = catch(|| TimeDelta::parse(s).map(|d| (d.months, d.inner.num_nanoseconds())).map_err(|_| ()));
     ctx.eval(fam, match &r { Outcome::Ok(Ok(v)) => hash_bytes(format!("{v:?}").as_bytes()), Outcome::Ok(Err(())) => 1, Outcome::Panic(_) => 2 });
+    // the FromStr / From<&str> / Cast<TimeDelta> routes are the same parser
+    let key = |d: TimeDelta| (d.months, d.inner.num_nanoseconds());
+    let via_fromstr = catch(|| s.parse::<TimeDelta>().map(key).map_err(|_| ()));
+    let mut agree = matches!((&r, &via_fromstr), (Outcome::Ok(a), Outcome::Ok(b)) if a == b) || (r.is_panic() && via_fromstr.is_panic());
+    if let Outcome::Ok(Ok(v)) = &r {
+        let via_from = catch(|| key(TimeDelta::from(s)));
+        let via_cast = catch(|| key(tevec::prelude::Cast::<TimeDelta>::cast(s)));
+        let via_cast_string = catch(|| key(tevec::prelude::Cast::<TimeDelta>::cast(s.to_string())));
+        agree &= matches!((&via_from, &via_cast, &via_cast_string), (Outcome::Ok(a), Outcome::Ok(b), Outcome::Ok(c)) if a == v && b == v && c == v);
+    }
+    if !agree {
+        viol(ctx, "TimeDelta: FromStr / From<&str> / Cast agree with parse", None, json!({"family": fam, "input": s}), format!("{r:?}"), format!("{via_fromstr:?}"));
+    }
     if let Outcome::Panic(m) = r {
         // F25: unwrap() on the integer parse / unchecked arithmetic in TimeDelta::parse
         viol(ctx, "TimeDelta::parse (totality)", Some("F25"), json!({"family": fam, "input": s}), "a value or an error".into(), format!("PANIC({})", truncate(&m, 100)));
@@ -112,6 +125,18 @@ fn dt_parse(u: u8, s: &str, fmt: Option<&str>) -> Outcome<Result<i64, ()>> {
 }
 fn dt_total(u: u8, s: &str, fmt: Option<&str>, fam: &str, ctx: &mut Ctx) {
     let r = dt_parse(u, s, fmt);
+    if fmt.is_none() {
+        // FromStr (and, for accepted strings, Cast<DateTime<U>> from &str / String) are the same parser
+        let via_fromstr: Outcome<Result<i64, ()>> = by_unit!(u, U => catch(|| s.parse::<DateTime<U>>().map(|d| d.into_i64()).map_err(|_| ())));
+        let mut agree = matches!((&r, &via_fromstr), (Outcome::Ok(a), Outcome::Ok(b)) if a == b) || (r.is_panic() && via_fromstr.is_panic());
+        if let Outcome::Ok(Ok(v)) = &r {
+            let via_cast: Outcome<(i64, i64)> = by_unit!(u, U => catch(|| (tevec::prelude::Cast::<DateTime<U>>::cast(s).into_i64(), tevec::prelude::Cast::<DateTime<U>>::cast(s.to_string()).into_i64())));
+            agree &= matches!(&via_cast, Outcome::Ok((a, b)) if a == v && b == v);
+        }
+        if !agree {
+            viol(ctx, "DateTime: FromStr / Cast agree with parse", None, json!({"family": fam, "unit": UNITS[u as usize], "input": s}), format!("{r:?}"), format!("{via_fromstr:?}"));
+        }
+    }
     ctx.eval(fam, match &r { Outcome::Ok(Ok(v)) => *v as u64, Outcome::Ok(Err(())) => 1, Outcome::Panic(_) => 2 });
     if let Outcome::Panic(m) = r {
         // F26: DateTime<Nanosecond> conversion from chrono expects the instant to fit in i64 nanoseconds
@@ -242,6 +267,12 @@ fn check_time_parse(ctx: &mut Ctx, max_len: usize) {
         ctx.transitions += 1;
         for fmt in [None, Some("%H:%M:%S"), Some("%H%M")] {
             let r = catch(|| Time::parse(&s, fmt).map(|t| t.0).map_err(|_| ()));
+            if fmt.is_none() {
+                let via_fromstr = catch(|| s.parse::<Time>().map(|t| t.0).map_err(|_| ()));
+                if !(matches!((&r, &via_fromstr), (Outcome::Ok(a), Outcome::Ok(b)) if a == b) || (r.is_panic() && via_fromstr.is_panic())) {
+                    viol(ctx, "Time: FromStr agrees with parse", None, json!({"family": "time-totality", "input": s}), format!("{r:?}"), format!("{via_fromstr:?}"));
+                }
+            }
             ctx.eval("time-totality", match &r { Outcome::Ok(Ok(v)) => *v as u64, Outcome::Ok(Err(())) => 1, _ => 2 });
             if r.is_panic() {
                 viol(ctx, "Time::parse (totality)", None, json!({"family": "time-totality", "input": s, "format": fmt}), "a value or an error".into(), format!("{r:?}"));
